@@ -233,6 +233,31 @@ def check_case(ctx, c):
                 out.append(("KNOWN:K1", "%s: dagger of a fractional power of a gate with eigenvalue -1 is (g^dagger)^e, not the adjoint" % desc))
             else:
                 out.append(("law:" + mod["m"], "%s: matrix is not the %s of the matrix of %s" % (desc, law, chain_str(c["base"], c["chain"][:-1]))))
+        # matrices a caller HOLDS: the matrix object received for this gate, then the matrix of another gate of the same shape (a
+        # controlled gate for a controlled one), then the first object again - it still is this gate's matrix; and what the
+        # caller does to the object it received does not change the gate
+        if law_ok and mod["m"] in ("controlled", "dagger") and g.num_qubits <= 3:
+            try:
+                import sympy as _sp
+                from orquestra.quantum.circuits import RZ as _RZ, Z as _Z
+
+                held = g.matrix
+                sib = (_Z if g.num_qubits == 1 else _RZ(0.7).controlled(g.num_qubits - 1) if g.num_qubits > 1 else _Z)
+                sib_m = sib.matrix
+                again = np.array(_sp.Matrix(held).evalf().tolist(), dtype=complex)
+                if not close(again, M, 1e-9):
+                    out.append(("held-matrix", "%s: the matrix object received for this gate changed when the matrix of %s was computed" % (desc, sib)))
+                elif hasattr(held, "__setitem__"):
+                    try:
+                        held[0, 0] = 7
+                        if not close(np_matrix(g), M, 1e-9) or not close(np_matrix(apply_chain(g0, c["chain"])), M, 1e-9):
+                            out.append(("held-matrix:shared", "%s: after a caller overwrote an entry of the matrix it had received, the gate's matrix changed" % desc))
+                    except TypeError:
+                        pass
+            except Timeout:
+                raise
+            except Exception as ex:
+                out.append(("held-matrix:raises", "%s: %s: %s" % (desc, type(ex).__name__, str(ex)[:120])))
         # the same law at parameter values OFF the grid of the exact ring (the statement is about every real parameter): judged
         # on the implementation's own matrices, for chains short enough to stay inside the time limit
         if c["base"]["np"] > 0 and len(c["chain"]) <= 2 and law_ok:
